@@ -122,7 +122,12 @@ class VQueue:
                     w.current_child.script.append(('put', self, pickle.dumps(item)))
                     return
             data = pickle.dumps(item)     # Manager queues pickle what they carry
-            if self.mode() == 'eager':
+            mode = self.mode()
+            if mode == 'lazy':
+                # the monitor's event queue: a worker announces itself as soon as it starts, its end
+                # event becomes visible when the worker gets there (just before its result)
+                mode = 'scripted' if type(item).__name__.endswith('EndEvent') else 'eager'
+            if mode == 'eager':
                 self.buf.append(pickle.loads(data))
             else:
                 w.current_child.script.append(('put', self, data))
@@ -805,6 +810,8 @@ class VWorld:
             return 'choice'
         if q is self.log_queue:
             return self.log_mode
+        if q is self.event_queue:
+            return 'lazy'
         return 'eager'
 
     def fp(self):
